@@ -25,6 +25,9 @@ ID = "C16"
 LEVEL = "exploration"
 DESIGN_REF = "DESIGN.md#C16"
 TECHNIQUE = "runtime monitoring: generated path/painting programs run by the real interpreter; exact-rational reference path and graphics-state model as oracle"
+LEVEL_TEXT = (
+    'Exploration against a reference model: random path/painting programs with graphics-state changes are executed by the real interpreter and an exact-rational path model; shape count, points, class, flags, line width, dash and colours are compared exactly. Right level for an unbounded program space with a small exact specification.'
+)
 RULE = (
     "random programs of 3-14 path objects (1-4 subpaths each: m l c v y h re; painted by S s f f* B B* b b* or ended by n, "
     "optionally clipped W/W*) interleaved with q Q cm w d and colour operators g G rg RG k K cs CS sc scn SC SCN (Device "
